@@ -56,6 +56,60 @@ def sweep_cases(kmax):
     return out
 
 
+def island_cases():
+    """Parametric family: code that can be entered only through a taken label address (lref data + jmpi), behind a branch whose
+    condition is a constant (the island is dead: only its lref-referenced labels keep it) or comes from memory (the island runs).
+    Shapes of the island: a block that is its own jmpi predecessor, two blocks in a cycle, with and without values flowing in."""
+    R, I, M = progs.op_reg, progs.op_imm, progs.op_mem
+    LR = {"k": "dref", "b": 4}
+    out = []
+    skips = [("jmp",), ("bf", I(0)), ("bt", I(1)), ("bfs", I(0)), ("bts", I(7)), ("beq", I(3), I(3)), ("bf", R(6)), ("bt", R(6))]
+    for skip in skips:
+        for shape in ("self", "pair", "self_uses", "fall", "tail"):
+            for cond in (0, 1):
+                for n in (1, 3):
+                    pre = [progs.ins("mov", R(2), M("i64", 0, 1)), progs.ins("mov", R(3), M("i64", 8, 1)), progs.ins("mov", R(6), M("i64", 16, 1)),
+                           progs.ins("add", R(4), R(2), R(3))]
+                    jump = lambda slot: [progs.ins("mov", R(5), LR), progs.ins("mov", R(5), M("i64", 8 * slot, 5)), {"op": "jmpi", "s": [R(5)]}]
+                    head = jump(0)                                   # pcs 6..8: falls in from the skip branch (pc 5)
+                    a = 9                                            # pc of island label A
+                    if shape == "fall":
+                        # no jmpi in the function at all: the island labels A, B are kept only by the lref data (B - A) and fall into END
+                        head = [progs.ins("add", R(4), R(4), I(16))]
+                        a = 7
+                        island, lrefs, end = [progs.ins("add", R(4), R(4), I(1)), progs.ins("add", R(4), R(4), R(2))], [{"l": a + 1, "l2": a, "d": 0}], a + 2
+                    elif shape == "tail":
+                        # the island is behind the ret: A: r4 += 1; r3 -= 1; ble OUT; jmpi A   OUT: ret r4
+                        a = 9 + 4
+                        blk = [progs.ins("add", R(4), R(4), I(1)), progs.ins("sub", R(3), R(3), I(1)), progs.br("ble", a + 6, R(3), I(0))] + jump(0)
+                        island, lrefs, end = [], [{"l": a, "l2": 0, "d": 0}], 9
+                    elif shape == "pair":
+                        # A: r4 += 1; jmpi B      B: r3 -= 1; ble END; jmpi A
+                        blkA = [progs.ins("add", R(4), R(4), I(1))] + jump(1)
+                        b = a + len(blkA)
+                        blkB = [progs.ins("sub", R(3), R(3), I(1)), None] + jump(0)
+                        end = b + len(blkB)
+                        blkB[1] = progs.br("ble", end, R(3), I(0))
+                        island, lrefs = blkA + blkB, [{"l": a, "l2": 0, "d": 0}, {"l": b, "l2": 0, "d": 0}]
+                    else:
+                        # A: r4 += (1 | r2); r3 -= 1; ble END; jmpi A
+                        inc = I(1) if shape == "self" else R(2)
+                        blk = [progs.ins("add", R(4), R(4), inc), progs.ins("sub", R(3), R(3), I(1)), None] + jump(0)
+                        end = a + len(blk)
+                        blk[2] = progs.br("ble", end, R(3), I(0))
+                        island, lrefs = blk, [{"l": a, "l2": 0, "d": 0}]
+                    tail = [progs.ins("add", R(7), R(4), R(3)),
+                            progs.ins("mov", M("i64", 192, 1), R(4)), progs.ins("mov", M("i64", 200, 1), R(7)), {"op": "ret", "s": [R(7)]}]
+                    insns = pre + [progs.br(skip[0], end, *skip[1:])] + head + island + tail
+                    if shape == "tail":
+                        insns += blk + [progs.ins("mov", M("i64", 208, 1), R(4)), {"op": "ret", "s": [R(4)]}]
+                    buf = (1000).to_bytes(8, "little") + n.to_bytes(8, "little") + cond.to_bytes(8, "little")
+                    c = progs.family_case(insns, 8, buf)
+                    c["prog"]["funcs"][0]["lrefs"] = lrefs
+                    out.append(c)
+    return out
+
+
 def arith_const_cases(kmax, avals):
     """Parametric family: multiplication, division and remainder by every small constant (strength reduction, magic-number
     division, lea forms), 64- and 32-bit, signed and unsigned, for a few dividends incl. negative ones."""
@@ -91,7 +145,7 @@ def run(tier, cases=None, only_engines=None):
     else:
         ck.setc("states", len(cases)); ck.setc("transitions", len(cases))
     if only_engines is None and tier in ("quick", "thorough") and not os.environ.get("C01_NO_SWEEP") and len(cases) > 100:
-        fam, rf = progs.run_family(sweep_cases(200 if tier == "quick" else 600)
+        fam, rf = progs.run_family(sweep_cases(200 if tier == "quick" else 600) + island_cases()
                                    + arith_const_cases(130 if tier == "quick" else 1100,
                                                        [1000003, -1000003] if tier == "quick" else [1000003, -1000003, 0x7fffffff, -(1 << 63), 0x123456789]))
         cases = cases + fam
